@@ -42,6 +42,7 @@ type Ctx struct {
 }
 
 func NewCtx(p *Program, prop string) *Ctx {
+	curProg = p
 	return &Ctx{Program: p, Prop: prop, min: map[string]int{}, rules: map[string]string{}}
 }
 
